@@ -20,17 +20,21 @@ type Obligation struct {
 	Verdict   string   `json:"verdict"` // held | violated | known-finding
 	Detail    string   `json:"detail,omitempty"`
 	Witness   []string `json:"witness,omitempty"`
+	// Sites: for path rules, one line-free descriptor per offending exit ("<node text> #<ordinal among equal texts>");
+	// a known finding that lists sites covers exactly those, any other offending site is a new violation
+	Sites []string `json:"sites,omitempty"`
 }
 
 type KnownFinding struct {
-	Status    string `json:"status"` // "known" or "fixed"
-	Property  string `json:"property"`
-	Rule      string `json:"rule"`
-	Construct string `json:"construct"`
-	WhatFails string `json:"what_fails"`
-	Repro     string `json:"repro,omitempty"`
-	Commit    string `json:"commit,omitempty"`
-	Finding   string `json:"finding,omitempty"`
+	Status    string   `json:"status"` // "known" or "fixed"
+	Property  string   `json:"property"`
+	Rule      string   `json:"rule"`
+	Construct string   `json:"construct"`
+	WhatFails string   `json:"what_fails"`
+	Repro     string   `json:"repro,omitempty"`
+	Commit    string   `json:"commit,omitempty"`
+	Finding   string   `json:"finding,omitempty"`
+	Sites     []string `json:"sites,omitempty"`
 }
 
 type Ctx struct {
@@ -108,6 +112,20 @@ func (c *Ctx) Offences(g *Graph, offs []Offence, rule, construct string, pos tok
 	}
 	det += ": " + g.nodeText(o.Node)
 	c.Violated(rule, construct, p, det, o.Path)
+	// site descriptors of all offending nodes
+	var sites []string
+	for _, of := range offs {
+		txt := g.nodeText(of.Node)
+		ord := 0
+		for _, x := range g.Nodes {
+			if g.nodeText(x) == txt && (x.Ast == nil || of.Node.Ast == nil || x.Ast.Pos() <= of.Node.Ast.Pos()) {
+				ord++
+			}
+		}
+		sites = append(sites, fmt.Sprintf("%s #%d", txt, ord))
+	}
+	sort.Strings(sites)
+	c.Obs[len(c.Obs)-1].Sites = sites
 }
 
 func (c *Ctx) Note(s string) { c.notes = append(c.notes, s) }
@@ -156,6 +174,23 @@ func (c *Ctx) finish(verifDir string, meta propMeta, t0 time.Time, seed int) int
 		for i := range known {
 			k := &known[i]
 			if k.Status == "known" && k.Property == c.Prop && k.Rule == o.Rule && k.Construct == o.Construct {
+				if len(k.Sites) > 0 {
+					covered := true
+					for _, s := range o.Sites {
+						found := false
+						for _, ks := range k.Sites {
+							if ks == s {
+								found = true
+							}
+						}
+						if !found {
+							covered = false
+						}
+					}
+					if !covered {
+						continue
+					}
+				}
 				return k
 			}
 		}
@@ -173,6 +208,10 @@ func (c *Ctx) finish(verifDir string, meta propMeta, t0 time.Time, seed int) int
 			if k := isKnown(*o); k != nil {
 				o.Verdict = "known-finding"
 				nKnown++
+				if os.Getenv("SOPCHECK_DUMP_KNOWN_SITES") != "" && len(o.Sites) > 0 {
+					b, _ := json.Marshal(map[string]interface{}{"property": c.Prop, "rule": o.Rule, "construct": o.Construct, "sites": o.Sites})
+					fmt.Printf("KNOWN-SITES %s\n", b)
+				}
 				fmt.Printf("KNOWN-FINDING: property=%s %s [%s %s at %s]\n", c.Prop, k.WhatFails, o.Rule, o.Construct, o.Where)
 			} else {
 				fresh = append(fresh, *o)
